@@ -549,6 +549,8 @@ fn run_job(job: &JobSpec, env: &WorkerEnv, sched: &Arc<Sched>, tid: usize, multi
                 Err(payload) => {
                     if let Some(f) = payload.downcast_ref::<FuelExhausted>() {
                         Outcome::Hang { site: f.0.to_string(), memory: f.1 }
+                    } else if payload.downcast_ref::<crate::simio::InjectedUnwind>().is_some() {
+                        Outcome::Panic { file: INJECTED.into(), line: 0, msg: "the simulated reader/sink unwound the compilation".into() }
                     } else {
                         let (file, line, msg) = LAST_PANIC
                             .with(|p| p.borrow_mut().take())
@@ -626,6 +628,8 @@ pub struct WorldResult {
 }
 
 pub const STACK_BYTES: usize = 8 << 20;
+/// `file` of the Panic outcome of a compilation unwound by the simulator itself (stream flavour 4)
+pub const INJECTED: &str = "<injected unwind>";
 
 /// Variables the simulator controls. Baseline (environment 0): every one of them unset except LANG=C, TZ=UTC,
 /// HOME=/root, USER=root, TERM=dumb; working directory = the worker's empty `cwd`.
